@@ -78,3 +78,59 @@ def _root_name(node):
     while isinstance(node, (ast.Attribute, ast.Subscript, ast.Call)):
         node = node.func if isinstance(node, ast.Call) else node.value
     return node.id if isinstance(node, ast.Name) else None
+
+
+LIKE_FUNCS = {"zeros_like", "empty_like", "ones_like", "full_like"}
+FLOAT_FUNCS = {"sqrt", "exp", "log", "sin", "cos", "power", "true_divide", "divide", "mean", "average", "float64", "float"}
+
+
+def dtype_follow(proj, f):
+    """buffers whose dtype follows an argument (`np.zeros_like(arg)`, `arg.copy()`) and that
+    receive, by element / slice assignment, a value that is floating point whatever the
+    argument's dtype (true division, float literal, sqrt...): for integer-typed input the store
+    truncates silently.  -> [(lineno, buffer text, store text)]"""
+    ctx = MethodCtx(proj, f, set())
+    params = set(ctx.params)
+
+    def dep(node):
+        return any(p.split(".")[0].split("[")[0] in params for p in ctx.deps(node, False))
+
+    def is_like(node):
+        if isinstance(node, ast.Call):
+            if _np_name(node.func) in LIKE_FUNCS and node.args and dep(node.args[0]) and not any(k.arg == "dtype" for k in node.keywords):
+                return True
+            if isinstance(node.func, ast.Attribute) and node.func.attr == "copy" and not node.args and dep(node.func.value):
+                return True
+        if isinstance(node, (ast.List, ast.ListComp)):
+            elts = node.elts if isinstance(node, ast.List) else [node.elt]
+            return any(is_like(e) for e in elts)
+        return False
+
+    def floatish(node):
+        for n in ast.walk(node):
+            if isinstance(n, ast.BinOp) and isinstance(n.op, ast.Div):
+                return True
+            if isinstance(n, ast.Constant) and isinstance(n.value, float):
+                return True
+            if isinstance(n, ast.Call) and (_np_name(n.func) in FLOAT_FUNCS or (isinstance(n.func, ast.Attribute) and _root_name(n.func) == "math")):
+                return True
+        return False
+    follow = {}
+    for n in ast.walk(f.node):
+        if isinstance(n, ast.Assign) and is_like(n.value):
+            for t in n.targets:
+                if isinstance(t, ast.Name):
+                    follow[t.id] = unparse(n.value)[:50]
+        if isinstance(n, ast.Call) and isinstance(n.func, ast.Attribute) and n.func.attr == "append" and n.args and is_like(n.args[0]):
+            r = _root_name(n.func.value)
+            if r:
+                follow[r] = unparse(n.args[0])[:50]
+    out = []
+    for n in ast.walk(f.node):
+        if isinstance(n, ast.Assign):
+            for t in n.targets:
+                if isinstance(t, ast.Subscript):
+                    r = _root_name(t)
+                    if r in follow and floatish(n.value):
+                        out.append((n.lineno, follow[r], unparse(n)[:70]))
+    return out
